@@ -28,6 +28,9 @@ pub(super) enum Action {
 
     /// Write lock attempt that never blocks
     TryWrite,
+
+    /// Release of a read or write lock
+    Unlock,
 }
 
 #[derive(Debug)]
@@ -94,7 +97,21 @@ impl RwLock {
         self.post_acquire_write_lock()
     }
 
+    /// Scheduling point before a release: whether another thread's lock attempt
+    /// happens before or after the release is explored.
+    fn branch_unlock(&self) {
+        let unwinding = std::thread::panicking()
+            || !super::execution(|execution| execution.threads.is_active());
+
+        if !unwinding {
+            self.state
+                .branch_action(Action::Unlock, Location::disabled());
+        }
+    }
+
     pub(crate) fn release_read_lock(&self) {
+        self.branch_unlock();
+
         super::execution(|execution| {
             // Execution has deadlocked, cleanup does not matter.
             if !execution.threads.is_active() {
@@ -127,6 +144,8 @@ impl RwLock {
     }
 
     pub(crate) fn release_write_lock(&self) {
+        self.branch_unlock();
+
         super::execution(|execution| {
             // Execution has deadlocked, cleanup does not matter.
             if !execution.threads.is_active() {
